@@ -318,33 +318,38 @@ theorem holdsG_final (k n : Nat) (hn : 1 ≤ n) (s : Schedule) :
 def AInv (sh : AShared) : Prop :=
   sh.stc + b2n sh.srcTC + sh.lostS = sh.satt ∧ sh.ttc + b2n sh.tgtTC + sh.lostT = sh.tatt
 
-theorem aInv_step (c : Cfg AShared APc) (i : Nat) (hc : AInv c.sh) : AInv (stepAt (aProg false) c i).sh := by
+theorem aInv_step (refuse : Bool) (c : Cfg AShared APc) (i : Nat) (hc : AInv c.sh) :
+    AInv (stepAt (aProg false refuse) c i).sh := by
   cases hl : c.ths[i]? with
   | none => rw [stepAt_none _ _ _ hl]; exact hc
   | some l =>
     rw [stepAt_some _ c i l hl]
     obtain ⟨sh, ths⟩ := c
-    obtain ⟨srcTC, tgtTC, satt, stc, tatt, ttc, lostS, lostT, closed⟩ := sh
+    obtain ⟨srcTC, tgtTC, satt, stc, tatt, ttc, lostS, lostT, closed, tornDown⟩ := sh
     obtain ⟨h1, h2⟩ := hc
     simp only at h1 h2
     cases l <;> simp only [aProg, aStep, AInv, Bool.false_and, Bool.false_eq_true, if_false]
     · exact ⟨h1, h2⟩
     · cases srcTC <;> cases tgtTC <;> simp_all [b2n] <;> omega
     · exact ⟨h1, h2⟩
-    · cases srcTC <;> simp_all [b2n] <;> omega
-    · cases tgtTC <;> simp_all [b2n] <;> omega
+    · split
+      · exact ⟨by simp only; omega, h2⟩
+      · cases srcTC <;> simp_all [b2n] <;> omega
+    · split
+      · exact ⟨h1, by simp only; omega⟩
+      · cases tgtTC <;> simp_all [b2n] <;> omega
     · exact ⟨h1, h2⟩
 
-theorem aInv_run (pcs : List APc) (s : Schedule) : AInv (run (aProg false) s (aInit pcs)).sh := by
-  have : ∀ (s : Schedule) (c : Cfg AShared APc), AInv c.sh → AInv (run (aProg false) s c).sh := by
+theorem aInv_run (refuse : Bool) (pcs : List APc) (s : Schedule) : AInv (run (aProg false refuse) s (aInit pcs)).sh := by
+  have : ∀ (s : Schedule) (c : Cfg AShared APc), AInv c.sh → AInv (run (aProg false refuse) s c).sh := by
     intro s
     induction s with
     | nil => intro c h; exact h
-    | cons j s ih => intro c h; exact ih _ (aInv_step c j h)
+    | cons j s ih => intro c h; exact ih _ (aInv_step refuse c j h)
   exact this s _ (by simp [AInv, aInit, b2n])
 
 theorem holdsA_closeSeq (sh : AShared) (h : AInv sh) : holdsA (aObs (closeSeq false sh)) = true := by
-  obtain ⟨srcTC, tgtTC, satt, stc, tatt, ttc, lostS, lostT, closed⟩ := sh
+  obtain ⟨srcTC, tgtTC, satt, stc, tatt, ttc, lostS, lostT, closed, tornDown⟩ := sh
   obtain ⟨h1, h2⟩ := h
   simp only at h1 h2
   cases srcTC <;> cases tgtTC <;> simp_all [holdsA, aObs, closeSeq, aStep, b2n] <;> omega
